@@ -503,7 +503,10 @@ C18Type(Ctx &c, bool primary)
   if (primary) {
     an.push_back(100000);
     an.push_back(200000);
-    if (c.scale >= 4) an.push_back(1000000);
+    if (c.scale >= 4) {
+      an.push_back(1000000);
+      an.push_back(4000000);  // "several million"
+    }
     for (uint64_t i = 0; i < 3 * c.scale; ++i) an.push_back(r.Range(1000, 60000));
   }
   std::vector<double> aal;
